@@ -23,6 +23,8 @@ use crate::{
 enum Letter {
     Committed(usize),
     Uncommitted,
+    /// a real command flushed by a transaction that was dropped; another commit followed
+    Abandoned,
     BogusId,
     BogusCut(usize, i64),
 }
@@ -32,6 +34,7 @@ impl Letter {
         match self {
             Letter::Committed(i) => node_name(*i),
             Letter::Uncommitted => "UNCOMMITTED".into(),
+            Letter::Abandoned => "ABANDONED".into(),
             Letter::BogusId => "BOGUSID".into(),
             Letter::BogusCut(i, d) => format!("{}@cut{:+}", node_name(*i), d),
         }
@@ -57,8 +60,19 @@ fn uncommitted_cmd(w: &World) -> Cmd {
     }
 }
 
+fn abandoned_cmd(w: &World) -> Cmd {
+    Cmd { id: basic_id(0xa2, 9997), prior: Prior::Single(addr(w.ids[0], 0)), priority: Priority::Basic(0), policy: None, data: encode_payload("w", &[Op::Append]) }
+}
+
+/// Committed after the abandoned transaction, so the committed frontier lies behind segments
+/// that never became part of the graph. Not part of the universe (never recorded).
+fn later_cmd(w: &World) -> Cmd {
+    Cmd { id: basic_id(0xa1, 9998), prior: Prior::Single(addr(w.ids[0], 0)), priority: Priority::Basic(0), policy: None, data: encode_payload("v", &[Op::Append]) }
+}
+
 fn address_of(w: &World, l: &Letter) -> Address {
     match l {
+        Letter::Abandoned => addr(abandoned_cmd(w).id, 1),
         Letter::Committed(i) => addr(w.ids[*i], w.max_cuts[*i]),
         Letter::Uncommitted => addr(uncommitted_cmd(w).id, 1),
         Letter::BogusId => addr(basic_id(0xb0, 7777), 1),
@@ -159,6 +173,7 @@ fn exec_letters(w: &World, r: &mut rtlib::replica::MemReplica, label: &str, layo
                 }
             }
             Letter::Uncommitted => "uncommitted",
+            Letter::Abandoned => "abandoned-then-overtaken",
             Letter::BogusId => "unknown-id",
             Letter::BogusCut(..) => "wrong-max-cut",
         };
@@ -211,6 +226,17 @@ fn exec_letters(w: &World, r: &mut rtlib::replica::MemReplica, label: &str, layo
 fn run_setup(s: &Setup<'_>, acc: &mut Acc, states: &mut HashSet<u64>) {
     let w = s.w;
     let mut r = build(w, &w.full(), s.layout).unwrap_or_else(|e| mcx::machinery_error(&format!("C20 build: {e}")));
+    // a real command flushed by a sync transaction that is then dropped, followed by an unrelated
+    // commit on the same storage handle (histories with abandoned transactions)
+    {
+        let mut t1 = r.trx();
+        r.add(&mut t1, &[abandoned_cmd(w)]).unwrap_or_else(|e| mcx::machinery_error(&format!("C20 abandoned add: {e}")));
+        r.flush(&mut t1).unwrap_or_else(|e| mcx::machinery_error(&format!("C20 abandoned flush: {e}")));
+        drop(t1);
+        let mut t2 = r.trx();
+        r.add(&mut t2, &[later_cmd(w)]).unwrap_or_else(|e| mcx::machinery_error(&format!("C20 later add: {e}")));
+        r.commit(t2).unwrap_or_else(|e| mcx::machinery_error(&format!("C20 later commit: {e}")));
+    }
     // a real command that is written to storage but not committed (open transaction, flushed)
     let mut trx = r.trx();
     r.add(&mut trx, &[uncommitted_cmd(w)]).unwrap_or_else(|e| mcx::machinery_error(&format!("C20 uncommitted add: {e}")));
@@ -365,6 +391,7 @@ fn alphabet(w: &World) -> Vec<Letter> {
     let n = w.n();
     let mut a: Vec<Letter> = (0..n).map(Letter::Committed).collect();
     a.push(Letter::Uncommitted);
+    a.push(Letter::Abandoned);
     a.push(Letter::BogusId);
     a.push(Letter::BogusCut(n - 1, 1));
     if w.max_cuts[n - 1] > 0 {
